@@ -283,6 +283,6 @@ fn check_insert(case: &DiffCase, obs: &mut Obs) -> PropResult {
 
 pub fn run(ctx: &mut Ctx) {
 	ctx.rule = "(i) mapping sets with 2..3 namespaces mixing placeholder names (C_, net/minecraft/unmapped/C_, f_, m_, p_, <init>, <clinit>), names merely containing a prefix, missing names and comments at every depth x every namespace index, compared with the documented rules plus subset/idempotence laws; (ii) diffs with all four actions at all levels compared with the documented diff-side rules plus survival/drop/idempotence laws. Non-trivial = (i) >=1 entry removed and >=1 placeholder entry retained because of a child or comment, (ii) >=1 removal turned into an edit and >=1 class node dropped; distinct by hash of the serialised case".into();
-	ctx.run_sub("remove_dummy", ctx.tier.pick(12000, 200_000), strategy, dispatch_remove);
-	ctx.run_sub("insert_dummy", ctx.tier.pick(12000, 200_000), diff_strategy, check_insert);
+	ctx.run_sub("remove_dummy", ctx.tier.pick(48000, 2000000), strategy, dispatch_remove);
+	ctx.run_sub("insert_dummy", ctx.tier.pick(48000, 2000000), diff_strategy, check_insert);
 }
